@@ -13,17 +13,30 @@
    Odd numbers are free for the seeded defect "initial threshold -1" (a threshold between 0 and 2).
    The three copied fields are provenance tags: the number of the engine whose ORIGINAL transcription / logits /
    character table the merged line holds.  len is the transcription length (only used by the seeded defect that
-   compares sums instead of means).                                                                            *)
+   compares sums instead of means).
+
+   Chain = TRUE models INCREMENTAL merging with one long-lived result layout (a pipeline that receives the engine outputs one
+   after another): call p merges the tuple <<result so far, engine p + 1>> into the line objects of the first layout, which
+   at that moment hold what the earlier calls left there.  Every such call is a merge of a 2-tuple of layouts inside the scope
+   of C19, so after call p every line must hold the first arg-max of engines 1..p+1 (ChainCorrect), and after the last call
+   exactly what one call on the whole tuple gives (ChainEqualsOneShot).  The seeded defect Mut = "stale_conf" scores the line
+   object of slot 1 with the confidence of what it held ORIGINALLY (a per-object memo that survives the replacement of the
+   line's transcription / logits / character table): invisible to Remerge (the true winner is still in the list and wins
+   again), visible in a chain.                                                                                  *)
 EXTENDS Naturals, Sequences, FiniteSets, TLC
 CONSTANTS NEngines, NLines,
           Confs,      \* subset of {0, 2, 4, 6, ...}
           Lens,       \* transcription lengths (use {1} unless Mut = "sums")
-          Mut         \* "none" | "ge" | "no_chars" | "init_minus1" | "sums"
+          Mut,        \* "none" | "ge" | "no_chars" | "init_minus1" | "sums" | "stale_conf"
+          Chain       \* FALSE: one call on the tuple of all engines, then the same call again; TRUE: incremental merging (NEngines >= 2)
 
 Engines == 1..NEngines
 Lines == 1..NLines
 Untouched == 1                       \* recorded confidence of a line nothing was copied into
 Thr0 == IF Mut = "init_minus1" THEN 1 ELSE 2
+\* the tuple of layouts handed to call number p (slot 1 = the long-lived first layout) and the number of calls
+Slots(p) == IF Chain THEN <<1, p + 1>> ELSE [i \in 1..NEngines |-> i]
+NCalls == IF Chain THEN NEngines - 1 ELSE 2
 
 VARIABLES conf, len,                 \* inputs: conf[e][k], len[e][k]
           pass, l, e, best,          \* loop counters, running threshold
@@ -40,18 +53,18 @@ Init == /\ conf \in [Engines -> [Lines -> Confs]]
         /\ text = Fresh.text /\ logits = Fresh.logits /\ chars = Fresh.chars /\ rec = Fresh.rec
         /\ snap = Fresh
 
-\* what slot s of the list holds for line k: in the second pass slot 1 is the merged line of the first pass
-SlotText(s, k) == IF pass = 2 /\ s = 1 THEN snap.text[k] ELSE s
-SlotLogits(s, k) == IF pass = 2 /\ s = 1 THEN snap.logits[k] ELSE s
-SlotChars(s, k) == IF pass = 2 /\ s = 1 THEN snap.chars[k] ELSE s
+\* what layout s of the list holds for line k: from the second call on layout 1 holds the merged line of the calls before
+SlotText(s, k) == IF pass >= 2 /\ s = 1 THEN snap.text[k] ELSE s
+SlotLogits(s, k) == IF pass >= 2 /\ s = 1 THEN snap.logits[k] ELSE s
+SlotChars(s, k) == IF pass >= 2 /\ s = 1 THEN snap.chars[k] ELSE s
 \* get_confidences is computed from the slot's transcription and logits (consistent triples: the engine of the text)
-SlotConf(s, k) == conf[SlotText(s, k)][k]
+SlotConf(s, k) == IF Mut = "stale_conf" /\ s = 1 THEN conf[1][k] ELSE conf[SlotText(s, k)][k]
 SlotLen(s, k) == len[SlotText(s, k)][k]
 Score(s, k) == IF Mut = "sums" /\ SlotConf(s, k) >= 2 THEN (SlotConf(s, k) - 2) * SlotLen(s, k) + 2 ELSE SlotConf(s, k)
 
-Scan == /\ l <= NLines /\ e < NEngines
+Scan == /\ l <= NLines /\ e < Len(Slots(pass))
         /\ e' = e + 1
-        /\ LET s == e + 1
+        /\ LET s == Slots(pass)[e + 1]
                sc == Score(s, l)
                wins == IF Mut = "ge" THEN sc >= best ELSE sc > best
            IN  IF wins
@@ -63,13 +76,13 @@ Scan == /\ l <= NLines /\ e < NEngines
                ELSE UNCHANGED <<best, text, logits, chars, rec>>
         /\ UNCHANGED <<conf, len, pass, l, snap>>
 
-NextLine == /\ l <= NLines /\ e = NEngines
+NextLine == /\ l <= NLines /\ e = Len(Slots(pass))
             /\ l' = l + 1 /\ e' = 0 /\ best' = Thr0
             /\ UNCHANGED <<conf, len, pass, text, logits, chars, rec, snap>>
 
-Remerge == /\ pass = 1 /\ l = NLines + 1
+Remerge == /\ pass < NCalls /\ l = NLines + 1
            /\ snap' = [text |-> text, logits |-> logits, chars |-> chars, rec |-> rec]
-           /\ pass' = 2 /\ l' = 1 /\ e' = 0 /\ best' = Thr0
+           /\ pass' = pass + 1 /\ l' = 1 /\ e' = 0 /\ best' = Thr0
            /\ UNCHANGED <<conf, len, text, logits, chars, rec>>
 
 Next == Scan \/ NextLine \/ Remerge
@@ -79,14 +92,19 @@ Spec == Init /\ [][Next]_vars
 MaxConf(k) == CHOOSE m \in {conf[i][k] : i \in Engines} : \A i \in Engines : conf[i][k] <= m
 FirstArgMax(k) == CHOOSE i \in Engines : conf[i][k] = MaxConf(k) /\ \A j \in 1..(i-1) : conf[j][k] < MaxConf(k)
 
-\* The statement, with the reading decision of DESIGN.md Appendix D for a maximum that is not positive:
-\* tx, lg, ch = engines whose original field equals the merged line's field; r = recorded confidence (Untouched if unchanged)
-Accepts(k, tx, lg, ch, r) ==
-    IF MaxConf(k) > 2
-    THEN LET w == FirstArgMax(k) IN w \in tx /\ w \in lg /\ w \in ch /\ r = MaxConf(k)
+\* The statement, with the reading decision of DESIGN.md Appendix D for a maximum that is not positive, for ONE call on a tuple of
+\* layouts whose confidences for the line are cf[1..n] (what the layouts hold when the call is made):
+\* tx, lg, ch = slots whose field before the call equals the merged line's field; r = recorded confidence (Untouched if unchanged)
+MaxOf(cf) == CHOOSE m \in {cf[i] : i \in DOMAIN cf} : \A i \in DOMAIN cf : cf[i] <= m
+FirstArgMaxOf(cf) == CHOOSE i \in DOMAIN cf : cf[i] = MaxOf(cf) /\ \A j \in 1..(i-1) : cf[j] < MaxOf(cf)
+AcceptsOn(cf, tx, lg, ch, r) ==
+    IF MaxOf(cf) > 2
+    THEN LET w == FirstArgMaxOf(cf) IN w \in tx /\ w \in lg /\ w \in ch /\ r = MaxOf(cf)
     ELSE \/ 1 \in tx /\ 1 \in lg /\ 1 \in ch /\ r = Untouched                         \* nothing copied
-         \/ MaxConf(k) = 2 /\ LET w == FirstArgMax(k) IN                               \* or the first arg-max (confidence 0) copied
+         \/ MaxOf(cf) = 2 /\ LET w == FirstArgMaxOf(cf) IN                             \* or the first arg-max (confidence 0) copied
                                  w \in tx /\ w \in lg /\ w \in ch /\ r \in {2, Untouched}
+\* ... for the call on the tuple of all engines
+Accepts(k, tx, lg, ch, r) == AcceptsOn([i \in Engines |-> conf[i][k]], tx, lg, ch, r)
 
 \* the algorithm as it is: when no engine is positive nothing at all is copied
 Strict(k) == IF MaxConf(k) > 2
@@ -102,4 +120,22 @@ SameEngine == \A k \in Lines : text[k] = logits[k] /\ logits[k] = chars[k]
 Idempotent == (pass = 2) => \A k \in Lines : k < l =>
                  /\ text[k] = snap.text[k] /\ logits[k] = snap.logits[k] /\ chars[k] = snap.chars[k]
                  /\ (rec[k] = snap.rec[k] \/ (snap.rec[k] = Untouched /\ rec[k] = Untouched))
+
+\* ---------------------------------------- incremental merging (Chain = TRUE) ----------------------------------------
+MaxUpTo(k, n) == CHOOSE m \in {conf[i][k] : i \in 1..n} : \A i \in 1..n : conf[i][k] <= m
+FirstArgMaxUpTo(k, n) == CHOOSE i \in 1..n : conf[i][k] = MaxUpTo(k, n) /\ \A j \in 1..(i-1) : conf[j][k] < MaxUpTo(k, n)
+StrictUpTo(k, n) == IF MaxUpTo(k, n) > 2
+                    THEN LET w == FirstArgMaxUpTo(k, n) IN text[k] = w /\ logits[k] = w /\ chars[k] = w /\ rec[k] = MaxUpTo(k, n)
+                    ELSE text[k] = 1 /\ logits[k] = 1 /\ chars[k] = 1 /\ rec[k] = Untouched
+\* during call p (= pass) the lines already processed hold the first arg-max of engines 1..p+1, the others (from the second call on)
+\* that of engines 1..p
+ChainCorrect == Chain => \A k \in Lines : (k < l => StrictUpTo(k, pass + 1)) /\ ((k > l /\ pass >= 2) => StrictUpTo(k, pass))
+\* ... and every call is, on its own 2-tuple, a merge the statement accepts
+ChainStepAccepted == Chain => \A k \in Lines : k < l =>
+                        AcceptsOn(<<conf[snap.text[k]][k], conf[pass + 1][k]>>,
+                                  {s \in 1..2 : <<snap.text[k], pass + 1>>[s] = text[k]}, {s \in 1..2 : <<snap.logits[k], pass + 1>>[s] = logits[k]},
+                                  {s \in 1..2 : <<snap.chars[k], pass + 1>>[s] = chars[k]},
+                                  rec[k])
+\* after the last call: what one call on the whole tuple gives
+ChainEqualsOneShot == (Chain /\ pass = NCalls /\ l = NLines + 1) => \A k \in Lines : Strict(k)
 =============================================================================
